@@ -321,6 +321,7 @@ def run(ctx, chk, tier="quick"):
                 chk.info("C11.O3", where_of(g, g.node), "format %r cannot parse fractional seconds" % fmt,
                          "whole-second refusal is unreachable; not required")
 
+    shifted_truncations(ctx, chk, "C11.O1", ("load",), "load")
     # ---------------- O4 (i): already populated
     _already_populated(ctx, chk, load, lflow)
     # ---------------- O4 (ii): non-uniform step
@@ -337,13 +338,61 @@ def run(ctx, chk, tier="quick"):
         for n in ast.walk(f.node):
             if isinstance(n, ast.Try) and enclosing_func(n) is f.node:
                 for h in n.handlers:
-                    body_has_raise_or_write = any(isinstance(x, (ast.Raise, ast.Call)) for st in n.body for x in ast.walk(st))
+                    # only a try body that can raise a refusal or write: a `raise`, a call of a function of the package, an
+                    # SQL call.  (A body of library calls only -- a second strptime format tried on ValueError -- has no refusal to swallow.)
+                    def _refusing(x):
+                        if isinstance(x, ast.Raise):
+                            return True
+                        if not isinstance(x, ast.Call):
+                            return False
+                        if isinstance(x.func, ast.Attribute) and x.func.attr in ("execute", "executemany", "executescript", "commit"):
+                            return True
+                        try:
+                            return bool(ctx.cg.resolve_callee(f, x.func))
+                        except Exception:
+                            return True
+                    body_has_raise_or_write = any(_refusing(x) for st in n.body for x in ast.walk(st))
                     if body_has_raise_or_write and not always_raises(h.body):
                         chk.ob("C11.O4", False, where_of(f, h),
                                "except %s in the load call tree can complete normally" % (ast.unparse(h.type) if h.type else "<bare>"),
                                "refusals propagate to the caller", key="%s|%s|swallow" % (f.module.relpath, f.qualname),
                                why="a swallowed refusal lets the load continue and commit")
     chk.floor("time-zone API uses classified", uses, 2)
+
+
+def shifted_truncations(ctx, chk, rule, modules, key_prefix):
+    """`int(E + 0.5)` on an epoch: int() truncates toward zero, so this is rounding only for E >= 0.  Every instant before
+    1970 has a negative epoch and is stored one second late.  Zero instances on the pinned tree; positive control."""
+    def find(fnode, flow=None):
+        out = []
+        for n in ast.walk(fnode):
+            if isinstance(n, ast.Call) and isinstance(n.func, ast.Name) and n.func.id == "int" and len(n.args) == 1 and isinstance(n.args[0], ast.BinOp) \
+                    and isinstance(n.args[0].op, (ast.Add, ast.Sub)):
+                b = n.args[0]
+                c, e = (b.right, b.left) if isinstance(b.right, ast.Constant) else ((b.left, b.right) if isinstance(b.left, ast.Constant) and isinstance(b.op, ast.Add) else (None, None))
+                if c is None or not isinstance(c.value, float) or c.value == int(c.value):
+                    continue
+                ex = flow.expand(e) if flow is not None else e
+                txt = ast.unparse(ex)
+                if "timestamp(" in txt or "total_seconds(" in txt or "epoch" in txt.lower():
+                    out.append((n, txt))
+        return out
+    k = 0
+    for modname in modules:
+        m = ctx.repo.modules.get(modname)
+        if m is None:
+            continue
+        for q, fi in sorted(m.functions.items()):
+            k += 1
+            for n, txt in find(fi.node, Flow.of(fi)):
+                chk.ob(rule, False, where_of(fi, n), "%s: int() truncates toward zero, so adding a half rounds only non-negative epochs" % ast.unparse(n)[:70],
+                       "the stored epoch is the whole-second instant itself (int of a whole number), or rounding that is symmetric about zero (math.floor(x + 0.5), round)",
+                       key="%s|shifted-truncation|%s" % (key_prefix, q), local=True,
+                       why="every instant before 1970-01-01T00:00:00Z has a negative epoch: int(-5 + 0.5) is -4, so those instants are stored one second late and a record that straddles 1970 gets a step of step-1 s")
+    ctl = ast.parse("def g(t):\n    return int(t.timestamp() + 0.5)\ndef h(t):\n    return int(t.timestamp())\n")
+    if len(find(ctl.body[0])) != 1 or find(ctl.body[1]):
+        chk.errors.append("%s positive control (shifted truncation) did not behave" % rule)
+    chk.count("%s functions scanned for int(epoch + fraction)" % key_prefix, k)
 
 
 def _is_offset_form(g, gflow, core, prov):
